@@ -1027,8 +1027,36 @@ def shrink(judge, c, sig, budget=40):
 
 
 # ------------------------------------------------------------------ the check
+def gen_nat(name):
+    """a constant of the tree under test, as regenerated into lean/PdshVerif/Gen/Hostlist.lean on this run"""
+    path = os.path.join(os.path.dirname(os.path.dirname(os.path.abspath(__file__))), "lean", "PdshVerif", "Gen", "Hostlist.lean")
+    m = re.search(r"def %s : Nat := (\d+)" % name, open(path).read())
+    return int(m.group(1)) if m else None
+
+
+def volume_cases(ctx, judge, cov, dist):
+    """PER-HOST VOLUME: one host with very many lines (around 4096, 8192, 65536) next to small ones, in every mode —
+    every line must arrive, in order, once (-d: in the host's file)"""
+    dist["volume"] = {}
+    for nlines in (4095, 4096, 4097, 8200, 66000):
+        for mode in (("d", "n", "c") if nlines == 4096 else ("d",)):
+            big = [("n1", "L%d" % i) for i in range(nlines)]
+            recs = [("n2", "first")] + big[:nlines // 2] + [("n2", "mid"), ("n3", "first")] + big[nlines // 2:] + [("n3", "mid")]
+            c = {"stream": "plain", "mode": mode, "recs": recs, "hash_seed": 0, "pin": "volume:%d" % nlines,
+                 "input": "".join("%s: %s\n" % r for r in recs).encode()}
+            res = judge.judge([c], use_model=(nlines <= 4097))[0]
+            cov["evaluations"] += 1
+            dist["volume"]["%d/%s" % (nlines, mode)] = "ok" if not res["verdicts"] else res["verdicts"][0][1]
+            for kind, sig, what in res["verdicts"]:
+                if kind == "offender":
+                    ctx.offender(sig, what, {"case": case_json(c), "oracle": res["oracle"]})
+                else:
+                    ctx.disagreement("dshbak model vs scripts/dshbak: " + sig, what[:300], {"volume": nlines, "mode": mode})
+
+
 def run(ctx):
     rng = ctx.rng
+    ctx.gen_consts(["hostlist"])            # MAX_RANGE / MAX_RANGES of the tree under test (hostlist.c)
     ctx.lean_build([PROPS, "pdshmodel"])
     ctx.audit(PROPS)
     cov = {"evaluations": 0, "distinct_nontrivial": 0, "samples": [],
@@ -1137,6 +1165,34 @@ def run(ctx):
                         ctx.disagreement("dshbak model vs scripts/dshbak: " + sig, what, case_json(c))
         if not ctx.replay:
             option_cases(ctx, script, judge, cov, dist)
+            volume_cases(ctx, judge, cov, dist)
+        # THE TWO SITES MUST AGREE: dshbak cuts a header into ranges of at most `lim` hosts and brackets of at most `mr`
+        # elements; the parser of THIS tree accepts MAX_RANGE / MAX_RANGES (regenerated from hostlist.c on this run).
+        # Wherever dshbak's limit is missing or larger than the parser's, the smallest group that needs it is run on
+        # the real pair (the header dshbak prints for MAX+1 goes to the real pdsh)
+        if not ctx.replay:
+            g_range, g_ranges = gen_nat("MAX_RANGE"), gen_nat("MAX_RANGES")
+            dist["limits"] = {"dshbak_range": lim, "dshbak_elements_per_bracket": mr, "hostlist.c MAX_RANGE": g_range,
+                              "hostlist.c MAX_RANGES": g_ranges}
+            extra = []
+            if g_ranges and (mr == 0 or mr > g_ranges) and g_ranges + 1 != 10241:
+                n = g_ranges + 1
+                extra.append(({"mode": "c", "input": "n1: x, n3: x, .. (%d odd numbers, identical bodies)" % n, "odd_hosts": n},
+                              [("n%d" % i, "x") for i in range(1, 2 * n, 2)], 5))
+            if g_range and (lim == 0 or lim > g_range) and g_range + 1 != 16385:
+                n = g_range + 1
+                extra.append(({"mode": "c", "input": "n1: x .. n%d: x (one line per host, identical bodies)" % n, "hosts": n},
+                              [("n%d" % i, "x") for i in range(1, n + 1)], 3))
+            for cj, recs2, hseed in extra:
+                lc = {"stream": "plain", "mode": "c", "recs": recs2, "hash_seed": hseed,
+                      "input": "".join("%s: x\n" % t for t, _ in recs2).encode()}
+                res = judge.judge([lc], use_model=False)[0]
+                cov["evaluations"] += 1
+                dist["streams"]["limit-mismatch"] = dist["streams"].get("limit-mismatch", 0) + 1
+                for kind, sig, what in res["verdicts"]:
+                    if kind == "offender":
+                        ctx.offender(sig, what[:300] + " [dshbak limits %s/%s, hostlist.c MAX_RANGE %s MAX_RANGES %s]" %
+                                     (lim, mr, g_range, g_ranges), {"case": cj, "real": [b[0][:120] for b in res["real"]["blocks"]][:2]})
         # F19-LONGRUN on the real pair (cheap), the model on it only in the thorough tier
         if not ctx.replay:
             for nrun in ([16385] if ctx.quick() else [16384, 16385]):
